@@ -19,6 +19,10 @@ def main():
     for tag, patches in variants:
         spec = {"tier": a.tier, "A": {"patches": patches}, "B": {}, "mode": "ident", "what": f"optimiser: {tag} vs full"}
         run_cases(chk, "vlib.kvk", "compare", names, spec, a.jobs)
+    from vlib import randforms
+    rnames = [randforms.name_of(chk.seed, i) for i in range(12 if a.tier == "quick" else 160)] if not a.only else []
+    run_cases(chk, "vlib.kvk", "compare", rnames, {"tier": "quick", "A": {"patches": ["noopt"]}, "B": {}, "mode": "ident", "what": "optimiser: noopt vs full (random forms)"}, a.jobs)
+    chk.extra["random_forms"] = len(rnames)
     # (a) operator overloads: CrossHair / z3 on the real lnodes functions
     try:
         from vlib import lnodes_sym
